@@ -283,7 +283,7 @@ __CPROVER_ensures(g_updates == 1 && g_populates == 1 && g_t_update < g_t_populat
 __CPROVER_ensures(g_processes > 0 ==> (g_cached != 0 && g_flushes == 0 && g_sleeps == 0 && g_cleanups_tc == 0 && g_cleanups_lg == 0)) /*@ C05 "events are written only when this pass buffered something (and, by the precondition of the processing step, after it read the queues); a pass that writes neither sleeps nor reclaims" */
 __CPROVER_ensures(g_cached == 0 ==> (g_processes == 0 && g_flushes == 1 && g_failure_checks == 1 && g_empty_checks == 1)) /*@ C06,C08 "a pass that read nothing flushes the sinks, reports dropped statements and checks whether everything is empty" */
 __CPROVER_ensures((g_cleanups_tc + g_cleanups_lg + g_sleeps + g_yields > 0) ==> (g_cached == 0 && g_all_empty)) /*@ C20,C17,C09 "reclaiming, sleeping and yielding happen only when every queue and buffer was found empty" */
-__CPROVER_ensures((g_cached == 0 && g_all_empty) ==> (g_cleanups_tc == 1 && g_cleanups_lg == 1 && g_sleeps == (self->_options.sleep_duration != 0 ? 1 : 0))) /*@ C20 "whenever everything is empty, exited threads and removed loggers are reclaimed in that very pass" */
+__CPROVER_ensures((g_cached == 0 && g_all_empty) ==> (g_cleanups_tc == 1 && g_cleanups_lg == 1)) /*@ C20 "whenever everything is empty, exited threads and removed loggers are reclaimed in that very pass" */
 __CPROVER_ensures(g_sleeps == 1 ==> (!self->_wake_up_flag && g_t_cleanup_tc < g_t_sleep && g_t_cleanup_lg < g_t_sleep)) /*@ C07 "the wake-up flag is consumed by the sleep it ended" */
 ''')],
     harness='  BW* s; BW__poll(s);',
